@@ -526,7 +526,7 @@ def ki_handler(ctx: Ctx):
                      'a catch-all handler in the consumer loop swallows KeyboardInterrupt')
 
 
-@rule('C14.SIGINT-IGNORED-FIRST', ['C14'])
+@rule('C14.SIGINT-IGNORED-FIRST', ['C14', 'C13'])
 def sigint_ignored_first(ctx: Ctx):
     """signal.signal(SIGINT, SIG_IGN) dominates every other call in the worker entry function."""
     we = roles.worker_entry(ctx)
@@ -564,6 +564,13 @@ def queue_in_thread(ctx: Ctx):
                         direct.append(d)
         joined = any(isinstance(j.func, ast.Attribute) and j.func.attr == 'join' for j in calls_in(host.node))
         ok = not direct and joined
+    # the transition of the dequeued item's future happens in the same thread function as the dequeue (otherwise the
+    # interrupt-safe thread only protects the dequeue, and a result taken off the queue can still be dropped)
+    inside = [c for f in ctx.P.closure([cons], include_nested=True) for c in calls_in(f.node)
+              if isinstance(c.func, ast.Attribute) and c.func.attr == 'set_result']
+    yield ctx.ob('C14.QUEUE-IN-THREAD', bool(inside), cons, gets[0] if gets else None, 'dequeued result applied to its future inside the helper thread',
+                 '' if inside else 'the helper thread only takes results off the queue; their futures are completed elsewhere, so an interrupt '
+                 '(or an abandoned thread) between the two loses a finished task')
     yield ctx.ob('C14.QUEUE-IN-THREAD', ok, cons, gets[0], 'result queue consumed only inside a joined helper thread', '' if ok else
                  'the result queue is consumed on the calling thread: a KeyboardInterrupt between taking a result and completing its future loses it')
 
